@@ -60,6 +60,9 @@ namespace adept {
     // Check Wolfe conditions
     if (cf <= cost_function_ + armijo_coeff_*step_size*grad0 // Armijo condition
 	&& std::fabs(grad) <= -curvature_coeff*grad0) { // Curvature condition
+#ifdef RJHOGAN_ADEPT_2_VERIF
+      { internal::VerifMinLog l("WOLFE"); if (l.on()) l.r(cf).r(cost_function_).r(armijo_coeff_).r(step_size).r(grad0).r(grad).r(curvature_coeff).i(1); }
+#endif
       x = test_x;
       final_step_size = step_size;
       cost_function_ = cf;
@@ -67,6 +70,9 @@ namespace adept {
       return MINIMIZER_STATUS_SUCCESS;
     }
     else {
+#ifdef RJHOGAN_ADEPT_2_VERIF
+      { internal::VerifMinLog l("WOLFE"); if (l.on()) l.r(cf).r(cost_function_).r(armijo_coeff_).r(step_size).r(grad0).r(grad).r(curvature_coeff).i(0); }
+#endif
       return MINIMIZER_STATUS_NOT_YET_CONVERGED;
     }
   }
@@ -129,10 +135,16 @@ namespace adept {
     bool at_bound = false;
 
     if (grad0 >= 0.0) {
+#ifdef RJHOGAN_ADEPT_2_VERIF
+      { internal::VerifMinLog l("LS0"); if (l.on()) l.r(step_size).r(max_step_size_).r(bound_step_size).r(grad0).i(0).r(0.0).i(0); }
+#endif
       return MINIMIZER_STATUS_DIRECTION_UPHILL;
     }
 
     if (is_bound_step && bound_step_size <= 0.0) {
+#ifdef RJHOGAN_ADEPT_2_VERIF
+      { internal::VerifMinLog l("LS0"); if (l.on()) l.r(step_size).r(max_step_size_).r(bound_step_size).r(grad0).i(1).r(0.0).i(0); }
+#endif
       // A state variable is already on its bound and the search
       // direction points out of the box: no step can be taken, so
       // report the bound to the caller without moving
@@ -148,6 +160,9 @@ namespace adept {
       at_bound = true;
     }
 
+#ifdef RJHOGAN_ADEPT_2_VERIF
+    { internal::VerifMinLog l("LS0"); if (l.on()) l.r(step_size).r(max_step_size_).r(bound_step_size).r(grad0).i(2).r(ss2).i(at_bound ? 1 : 0); }
+#endif
     // First step: bound the minimum
     while (iterations_remaining > 0) {
 
@@ -177,9 +192,15 @@ namespace adept {
       if (grad2 > 0.0 || cf2 >= cf1) {
 	// Positive gradient or cost function increase -> bounded
 	// between points 1 and 2
+#ifdef RJHOGAN_ADEPT_2_VERIF
+	{ internal::VerifMinLog l("BRK"); if (l.on()) l.r(ss1).r(ss2).r(cf1).r(cf2).r(grad2).i(at_bound ? 1 : 0).i(0); }
+#endif
 	break;
       }
       else if (at_bound) {
+#ifdef RJHOGAN_ADEPT_2_VERIF
+	{ internal::VerifMinLog l("BRK"); if (l.on()) l.r(ss1).r(ss2).r(cf1).r(cf2).r(grad2).i(1).i(1); }
+#endif
 	// The cost function has been reduced but we are already at
 	// the maximum step size and the gradient points towards it:
 	// make this point the solution
@@ -192,11 +213,21 @@ namespace adept {
       else {
 	// Reduced cost function but not yet bounded -> look further
 	// ahead
+#ifdef RJHOGAN_ADEPT_2_VERIF
+	{ internal::VerifMinLog l("BRK"); if (l.on()) l.r(ss1).r(ss2).r(cf1).r(cf2).r(grad2).i(0).i(2); }
+#endif
 	Real new_step;
+#ifdef RJHOGAN_ADEPT_2_VERIF
+	Real verif_raw = 0.0, verif_ss1 = ss1, verif_ss2 = ss2;
+	int verif_kind = 1;
+#endif
 	if (cf1 > cf2+grad2*(ss1-ss2)) {
 	  // Positive curvature: fit a quadratic
 	  Real curvature = 2.0*(cf1-cf2-grad2*(ss1-ss2))/((ss1-ss2)*(ss1-ss2));
 	  new_step = ss2-grad2/curvature; // Newton's method
+#ifdef RJHOGAN_ADEPT_2_VERIF
+	  verif_raw = new_step; verif_kind = 0;
+#endif
 	  // Bounds on actual step size
 	  new_step = std::max(ss1+1.1*(ss2-ss1), std::min(new_step, ss1+10.0*(ss2-ss1)));
 	  if (max_step_size_ > 0.0 && new_step-ss2 > max_step_size_) {
@@ -219,6 +250,9 @@ namespace adept {
 	  ss2 = bound_step_size;
 	  at_bound = true;
 	}
+#ifdef RJHOGAN_ADEPT_2_VERIF
+	{ internal::VerifMinLog l("EXT"); if (l.on()) l.i(verif_kind).r(verif_raw).r(verif_ss1).r(verif_ss2).r(max_step_size_).r(bound_step_size).i(is_bound_step ? 1 : 0).r(ss2).i(at_bound ? 1 : 0); }
+#endif
       }
 
       --iterations_remaining;
@@ -253,10 +287,16 @@ namespace adept {
 					- (grad1/max_grad) * (grad2/max_grad));
       ss3 = ss1 + ((gamma - grad1 + theta) / (2.0*gamma + grad2 - grad1)) * step_diff;
 
+#ifdef RJHOGAN_ADEPT_2_VERIF
+      Real verif_raw3 = ss3;
+#endif
 
       // Bound the step size to be at least 5% away from each end
       ss3 = std::max(0.95*ss1+0.05*ss2,
 		     std::min(0.05*ss1+0.95*ss2, ss3));
+#ifdef RJHOGAN_ADEPT_2_VERIF
+      { internal::VerifMinLog l("CUB"); if (l.on()) l.r(ss1).r(ss2).r(verif_raw3).r(ss3); }
+#endif
 
       MinimizerStatus status
 	= line_search_gradient_check(optimizable, x, direction, test_x,
@@ -280,18 +320,27 @@ namespace adept {
      
       if (grad3 > 0.0) {
 	// Positive gradient -> bounded between points 1 and 3
+#ifdef RJHOGAN_ADEPT_2_VERIF
+	{ internal::VerifMinLog l("REF"); if (l.on()) l.r(grad3).r(cf3).r(cf1).i(0); }
+#endif
 	ss2 = ss3;
 	cf2 = cf3;
 	grad2 = grad3;
       }
       else if (cf3 < cf1) {
 	// Reduced cost function, negative gradient
+#ifdef RJHOGAN_ADEPT_2_VERIF
+	{ internal::VerifMinLog l("REF"); if (l.on()) l.r(grad3).r(cf3).r(cf1).i(1); }
+#endif
 	ss1 = ss3;
 	cf1 = cf3;
 	grad1 = grad3;
       }
       else {
 	// Increased cost function, negative gradient
+#ifdef RJHOGAN_ADEPT_2_VERIF
+	{ internal::VerifMinLog l("REF"); if (l.on()) l.r(grad3).r(cf3).r(cf1).i(2); }
+#endif
 	ss2 = ss3;
 	cf2 = cf3;
 	grad2 = grad3;
